@@ -45,7 +45,7 @@ void ir_ba_swap(int i, uint64_t a, uint64_t b);
 uint8_t *ir_ba_raw(int i);
 uint64_t ir_hex_decode(uint8_t *str, uint64_t len, uint8_t *out, uint64_t outcap);
 
-#if KIND == 0 || KIND == 1 || KIND == 3 || KIND == 4
+#if KIND == 0 || KIND == 1 || KIND == 3 || KIND == 4 || KIND == 5
 static unsigned char M[3][CAP + 1];
 static size_t L[3];
 
@@ -75,14 +75,14 @@ static void compare_all(void)
 }
 #endif
 
-#if KIND == 3 || KIND == 4
+#if KIND == 3 || KIND == 4 || KIND == 5
 struct priv { uint64_t ref, size, capacity; uint8_t *data; };     /* byte_array::byte_array_private on LP64; checked by KIND 4 */
 static struct priv *P_of(int i) { return *(struct priv **)ir_ba_raw(i); }
 #endif
 
 void harness(void)
 {
-#if KIND == 3
+#if KIND == 3 || KIND == 5
     static const int pat[3] = { (PAT / 100) % 10, (PAT / 10) % 10, PAT % 10 };
     struct priv *G[4] = { 0, 0, 0, 0 };
     int g, i;
@@ -103,6 +103,34 @@ void harness(void)
         L[i] = pat[i] ? G[pat[i]]->size : 0;
         for (k = 0; k < CAP; ++k) if (pat[i] && k < L[i]) M[i][k] = G[pat[i]]->data[k];
     }
+#if KIND == 5
+    {   /* C16: the read-only members (size, empty, const operator[], comparison) leave the object AND the shared buffer
+           bit-identical: constant arrays can be read from any number of threads */
+        struct priv *P0[3], S0[3]; unsigned char D0[3][CAP + 1];
+        unsigned op = nondet_uchar(), j = nondet_uchar(), which = nondet_uchar(), a = nondet_uchar();
+        size_t n = nondet_size();
+        int same = 1;
+        i = nondet_uchar();
+        ASSUME(op < 4 && i >= 0 && i < 3 && j < 3 && which < 6 && a < 3 && n < CAP);
+        for (g = 0; g < 3; ++g) { P0[g] = P_of(g); if (P0[g]) { S0[g] = *P0[g]; for (k = 0; k < CAP + 1; ++k) if (k < S0[g].capacity) D0[g][k] = S0[g].data[k]; } }
+        switch (op) {
+        case 0: (void)ir_ba_size(i); break;
+        case 1: (void)ir_ba_empty(i); break;
+        case 2: ASSUME(n < L[i]); (void)ir_ba_get(i, n); break;
+        default: (void)ir_ba_cmp(i, j, which); break;
+        }
+        same &= (P_of(a) == P0[a]);
+        CHECK(same, "a read-only member leaves the array object itself unchanged (same buffer pointer)");
+        if (P0[a] && same) {
+            struct priv *q = P0[a];
+            same &= (q->ref == S0[a].ref && q->size == S0[a].size && q->capacity == S0[a].capacity && q->data == S0[a].data);
+            CHECK(same, "a read-only member leaves the shared buffer header (reference count, size, capacity, data pointer) unchanged");
+            if (same) for (k = 0; k < CAP + 1; ++k) if (k < S0[a].capacity) same &= (q->data[k] == D0[a][k]);
+            CHECK(same, "a read-only member leaves the bytes unchanged");
+        }
+    }
+    WITNESS();
+#else
     {
         unsigned op = nondet_uchar(), j = nondet_uchar(), a;
         size_t n = nondet_size(), m = nondet_size();
@@ -139,6 +167,7 @@ void harness(void)
         }
     }
     WITNESS();
+#endif
 #elif KIND == 4
     size_t n = nondet_size(), k = nondet_size();
     unsigned char v = nondet_uchar();
